@@ -59,6 +59,8 @@ IMPL_TREES_B = {
     "g": (("x",), E.bin_("+", E.sym("x"), E.num(10))),
     "h": (("x", "y"), E.bin_("-", E.bin_("*", E.sym("x"), E.sym("y")), E.num(1))),
 }
+# value-inspecting implementations (no symbolic counterpart: the model's implementations are expressions; oracle only)
+IMPL_LAMBDAS_C = {"f": (lambda x: 1 if x % 2 == 0 else 2), "g": (lambda x: 5 if x == 3 else 7), "h": (lambda x, y: 1 if x == y else 0)}
 IMPL_LAMBDAS_B = {"f": (lambda x: 3 * x), "g": (lambda x: x + 10), "h": (lambda x, y: x * y - 1)}
 
 
@@ -394,6 +396,41 @@ def functions_stream(ctx):
                   sx = str(x)
                   if "f(f(" in sx.replace(" ", "") or sx.count("f(") >= 2:
                       nested = True
+        # implementations that INSPECT the value of their argument (parity, comparison with a constant, equality of two arguments) and
+        # answer for a symbol too: with every input assigned a number each call has numeric arguments when its implementation is
+        # applied, so the result is the exact value of the expression with the function read as this implementation.  (ONE function
+        # at a time: several opaque implementations are applied name by name in dictionary order, so a call nested in a call of
+        # another name is still symbolic when the outer implementation runs — the documented behaviour of sympy's `replace`, which
+        # the model's `defineFns` follows; only for implementations that are expressions does the order not matter.)
+        if True:
+            tot = {"N": rng.randint(1, 6), "M": rng.randint(1, 6)}
+            which_c = [rng.choice(["f", "f", "g"])]
+            fmap = {k: IMPL_LAMBDAS_C[k] for k in which_c}
+            try:
+                ev = evaluate(r.routine, tot, functions_map=fmap).routine
+            except Exception as e:
+                ctx.stats["functions_stream_inspecting_raised_" + type(e).__name__] += 1
+                ev = None
+            if ev is not None:
+                ctx.stats["functions_stream_value_inspecting_cases"] += 1
+                rho = {k: Fraction(v) for k, v in tot.items()}
+                for (path, a), (_, b) in zip(walk(r.routine), walk(ev)):
+                    for (kk, x), (_, y) in zip(exprs(a), exprs(b)):
+                        if E.sympy_heads(x) - set(which_c) or not E.sympy_heads(x):
+                            continue      # a call of a function without an implementation stays symbolic: no value to compare
+                        try:
+                            exp = E.sympy_ev(x, dict(rho), 0, funcs=dict(fmap))
+                            got = E.sympy_ev(y, dict(rho), 0)
+                        except (E.Undefined, OverflowError, KeyError, TypeError):
+                            ctx.stats["functions_stream_value_inspecting_undefined"] += 1
+                            continue
+                        ctx.stats["functions_stream_value_inspecting_compared"] += 1
+                        if not compare.close(got, exp, True):
+                            ctx.violation("failing-input", f"with all inputs assigned numbers, {kk[0]} {'.'.join(path) or 'root'}.{kk[1]} is not the value of its expression under the "
+                                          f"value-inspecting implementation of {which_c}",
+                                          {"qref": q, "assignments_in_order": list(tot.items()), "functions_map": which_c, "history": "value-inspecting implementations"},
+                                          {"evaluated": str(y), "value": got}, exp)
+                            return
         if nested:
             ctx.nontrivial(("functions", i))
             ctx.stats["functions_stream_nested_calls"] += 1
@@ -504,6 +541,10 @@ def replay(payload):
     print("compile:", st, "| recorded:", payload.get("what"))
     if st == "ok" and "assignments_in_order" in inp:
         impls = {"f": (lambda x: x * x + 1), "g": (lambda x: 2 * x + 3), "h": (lambda x, y: x + 2 * y)}
+        if inp.get("history") == "value-inspecting implementations":
+            impls = IMPL_LAMBDAS_C
+        elif "second evaluate call" in str(inp.get("history")):
+            impls = IMPL_LAMBDAS_B
         fm = inp.get("functions_map")
         fm = {k: impls[k] for k in fm} if isinstance(fm, list) else None
         ev = evaluate(r.routine, dict(map(tuple, inp["assignments_in_order"])), functions_map=fm).routine
